@@ -253,6 +253,8 @@ def run(chk):
                         invariants=['IndicesInRange', 'Structure', 'MutuallyExclusive'])
     core.run_jobs(chk, [{'module': 'EigenArgs', 'cfg': cfg, 'part': 'eigen-args-and-matrix', 'replay': lambda st: replay_state(chk, st, rng)}])
     obs_events(chk)
+    from .. import session
+    session.run_for(chk, 'C17')      # Session.tla: results do not depend on earlier calls
 
 
 def replay_case(chk, sig, case):
